@@ -184,6 +184,18 @@ def scenarios(tier):
                         pipelines=[dict(prio="B", arrival=0, parents=[[], [0]], ops=[[seg(1, tps, None, 2)], [seg(1, tps, 1)]]),
                                    dict(prio="B", arrival=0, parents=[[]], ops=[[seg(1, tps, None, 1)]]),
                                    dict(prio="I", arrival=1, parents=[[]], ops=[[seg(2, tps, g)]])]))
+    # E/F: branching DAGs in multi-operator containers (fan-out, fan-in, diamond) with an over-sized operator
+    for tps in ([1] if tier == "quick" else [1, 2]):
+        out.append(dict(name=f"E-diamond-tps{tps}", tps=tps, pools=1, cpus=2, ram=8, overcommit=False, multi=True, r0=2,
+                        horizon=6 if tier == "quick" else 8,
+                        pipelines=[dict(prio="B", arrival=0, parents=[[], [0], [0], [1, 2]],
+                                        ops=[[seg(1, tps, 1)], [seg(1, tps, 3)], [seg(1, tps, 1)], [seg(1, tps, 1)]])]))
+        out.append(dict(name=f"F-join-tps{tps}", tps=tps, pools=2, cpus=2, ram=8, overcommit=False, multi=True, r0=2,
+                        horizon=6 if tier == "quick" else 8,
+                        pipelines=[dict(prio="I", arrival=0, parents=[[], [], [0, 1]],
+                                        ops=[[seg(2, tps, 1)], [seg(1, tps, 1)], [seg(1, tps, 1)]]),
+                                   dict(prio="B", arrival=1, parents=[[], [0], [0]],
+                                        ops=[[seg(1, tps, 1)], [seg(1, tps, 1)], [seg(1, tps, 3)]])]))
     # D: large allocations so that write-outs take several ticks; tiny ones so they take 0/1
     out.append(dict(name="D-long-writeout", tps=2, pools=1, cpus=4, ram=64, overcommit=False, multi=True, r0=32,
                     horizon=8 if tier == "quick" else 10,
